@@ -16,8 +16,8 @@ Transcribed behaviour (repo paths under dds/src/):
     remove_discovered_writer/_reader for every local reader/writer;
   * discovery_methods.rs:817-831 the locators of a new proxy come from the discovered participant entry — an endpoint whose
     participant is not (any more) in discovered_participant_list gets an EMPTY locator list;
-  * discovery_methods.rs:2638 remove_discovered_participant leaves discovered_reader_list / discovered_writer_list alone (D23),
-    so the next iteration matches the dead participant's readers again on the writer side;
+  * discovery_methods.rs remove_discovered_participant (repaired, fixes/D23.patch) takes the participant's endpoints out of
+    discovered_reader_list / discovered_writer_list and un-matches them like deleted endpoints;
   * a participant receives its own SPDP/SEDP traffic through the network (loopback), so it is a member of its own
     discovered-participant list and loses ITSELF when its outgoing traffic is cut.
 Network abstraction: announcements of S reach X iff S's outgoing traffic is not cut and S and X know each other.
@@ -248,7 +248,8 @@ def deleteContained (w : World) (part : Nat) : World :=
   let mine := w.eps.filter (fun e => e.part == part && e.alive)
   deleteEps w (mine.filter (fun e => e.isWriter) ++ mine.filter (fun e => !e.isWriter))
 
-/-- participant `x` removes participant `y` from its discovered-participant list: remove_discovered_participant -/
+/-- participant `x` removes participant `y` from its discovered-participant list: remove_discovered_participant
+    (the endpoints of `y` leave the discovered lists of `x`, every local endpoint makes the `gone` step) -/
 def goneEp (x y : Nat) (e : Ep) : Ep :=
   if e.alive && e.part == x then { e with st := step (sideOf e) e.st (.gone y) } else e
 
@@ -257,7 +258,9 @@ def forget (w : World) (x y : Nat) : World :=
   | none => w
   | some px =>
     if px.alive && px.known.contains y then
-      { setPart w x { px with known := px.known.filter (fun i => !(i == y)) } with eps := (w.eps.map (goneEp x y)) }
+      { setPart w x { px with known := px.known.filter (fun i => !(i == y))
+                              dReaders := px.dReaders.filter (discNotPfx y)
+                              dWriters := px.dWriters.filter (discNotPfx y) } with eps := (w.eps.map (goneEp x y)) }
     else w
 
 def forgetAll (w : World) (y : Nat) : List Nat → World
